@@ -22,10 +22,23 @@ KIND_KEYS = {
 }
 
 
+ALIAS_PREFIX = "9d1a6b65793a"   # varint(0x0d1d) ++ "key:"  — the generic encoding of the method "key"
+
+
+def _alias_key(key, rp):
+    """All symptoms of the did:key alias (did.Decode accepting the generic encoding of method "key":
+    fixes/C14_did_key_alias.diff) share one structural key."""
+    if key.startswith("did-") and str(rp.get("bytes", "")).startswith(ALIAS_PREFIX):
+        return "did-key-alias"
+    return key
+
+
 def _index_key(fname, kind):
     base = os.path.basename(fname)
     if base.startswith("cases_C14_prin_"):
         base = "cases_C14_prin.v"
+    if base.startswith("cases_C14_sig_"):
+        base = "cases_C14_sig.v"
     return "%s#%d" % (base, kind)
 
 
@@ -46,7 +59,7 @@ def check(run):
 
     # 1. the property on the implementation's own observations (no model involved)
     for d in direct:
-        run.violation(d["key"], d["what"], d["replay"])
+        run.violation(_alias_key(d["key"], d["replay"]), d["what"], d["replay"])
     run.obligation("implementation: every representation round trip / Wrap / determinism observed directly holds",
                    not direct, "%d direct violation(s)" % len(direct))
 
@@ -68,6 +81,7 @@ def check(run):
             ent = entries[idx] if idx < len(entries) else dict(kind="?", replay=dict(file=f, item=list(item)))
             key, what = KIND_KEYS.get(ent["kind"], ("model-mismatch", "model and implementation disagree"))
             rp = dict(ent["replay"]); rp["kind"] = ent["kind"]; rp["file"] = os.path.basename(f); rp["case"] = idx
+            key = _alias_key(key, rp)
             run.violation(key, what + " — " + json.dumps({k: v for k, v in rp.items() if k != "coq"})[:300], rp)
     run.obligation("correspondence: Sig/Did/Crypto model = implementation on every generated case", corr_ok,
                    "%d mismatching case(s) in %d files" % (nbad, len(files)))
